@@ -516,6 +516,56 @@ fn run_entry(i: usize, sc: &Scenario, maps: &Maps, out: &mut Vec<Value>, checks:
     }
 }
 
+/// Score settings given to the mode-agnostic `Performance` mean what they mean on the mode's own builder (per the generic
+/// setters' documentation: n_geki = mania n320, n_katu = mania n200 / catch tiny droplet misses, n300 = fruits, n100 = droplets,
+/// n50 = tiny droplets), in any of several orders and when a later call overwrites an earlier one.
+fn generic_vs_mode_builders(maps: &Maps, out: &mut Vec<Value>, checks: &mut u64) {
+    use rosu_pp::any::HitResultPriority::{BestCase, WorstCase};
+    for (mode, (map, _)) in maps.by_mode.iter() {
+        for variant in 0..8usize {
+            for lazer in [true, false] {
+                *checks += 1;
+                let g = Performance::new(map).lazer(lazer);
+                let (generic, own): (Performance<'_>, Performance<'_>) = match (mode.as_str(), variant) {
+                    // priority alone (consulted without an accuracy), also as an overwrite of an earlier value
+                    ("osu", 0) => (g.hitresult_priority(BestCase).misses(2).hitresult_priority(WorstCase), Performance::Osu(rosu_pp::osu::OsuPerformance::new(map).lazer(lazer).misses(2).hitresult_priority(WorstCase))),
+                    ("taiko", 0) => (g.hitresult_priority(BestCase).misses(2).hitresult_priority(WorstCase), Performance::Taiko(rosu_pp::taiko::TaikoPerformance::new(map).misses(2).hitresult_priority(WorstCase))),
+                    ("mania", 0) => (g.hitresult_priority(BestCase).misses(2).hitresult_priority(WorstCase), Performance::Mania(rosu_pp::mania::ManiaPerformance::new(map).lazer(lazer).misses(2).hitresult_priority(WorstCase))),
+                    ("catch", 0) => (g.hitresult_priority(WorstCase).misses(1), Performance::Catch(rosu_pp::catch::CatchPerformance::new(map).misses(1))),
+                    // accuracy + priority + one result
+                    ("osu", 1) => (g.accuracy(91.5).n50(1).hitresult_priority(WorstCase), Performance::Osu(rosu_pp::osu::OsuPerformance::new(map).lazer(lazer).accuracy(91.5).n50(1).hitresult_priority(WorstCase))),
+                    ("taiko", 1) => (g.accuracy(91.5).misses(1).hitresult_priority(WorstCase), Performance::Taiko(rosu_pp::taiko::TaikoPerformance::new(map).accuracy(91.5).misses(1).hitresult_priority(WorstCase))),
+                    ("mania", 1) => (g.accuracy(91.5).n_geki(1).hitresult_priority(WorstCase), Performance::Mania(rosu_pp::mania::ManiaPerformance::new(map).lazer(lazer).accuracy(91.5).n320(1).hitresult_priority(WorstCase))),
+                    ("catch", 1) => (g.accuracy(91.5).n_katu(1), Performance::Catch(rosu_pp::catch::CatchPerformance::new(map).accuracy(91.5).tiny_droplet_misses(1))),
+                    // the mode-specific names of the generic results
+                    ("mania", 2) => (g.n_geki(1).n_katu(2).n300(1).n100(1).n50(0).misses(1), Performance::Mania(rosu_pp::mania::ManiaPerformance::new(map).lazer(lazer).n320(1).n200(2).n300(1).n100(1).n50(0).misses(1))),
+                    ("catch", 2) => (g.n300(2).n100(1).n50(1).n_katu(1).misses(1).combo(2), Performance::Catch(rosu_pp::catch::CatchPerformance::new(map).fruits(2).droplets(1).tiny_droplets(1).tiny_droplet_misses(1).misses(1).combo(2))),
+                    ("osu", 2) => (g.n300(2).n100(1).combo(3).slider_end_hits(1).large_tick_hits(1), Performance::Osu(rosu_pp::osu::OsuPerformance::new(map).lazer(lazer).n300(2).n100(1).combo(3).slider_end_hits(1).large_tick_hits(1))),
+                    ("taiko", 2) => (g.n300(2).n100(1).combo(3), Performance::Taiko(rosu_pp::taiko::TaikoPerformance::new(map).n300(2).n100(1).combo(3))),
+                    // a later call overwrites an earlier one; state() after single fields and single fields after state()
+                    (_, 3) => {
+                        let st = crate::gradual::score_state(3);
+                        (g.misses(5).n100(4).state(st.clone()).misses(1), match mode.as_str() {
+                            "osu" => Performance::Osu(rosu_pp::osu::OsuPerformance::new(map).lazer(lazer).state(st.into()).misses(1)),
+                            "taiko" => Performance::Taiko(rosu_pp::taiko::TaikoPerformance::new(map).state(st.into()).misses(1)),
+                            "catch" => Performance::Catch(rosu_pp::catch::CatchPerformance::new(map).state(st.into()).misses(1)),
+                            _ => Performance::Mania(rosu_pp::mania::ManiaPerformance::new(map).lazer(lazer).state(st.into()).misses(1)),
+                        })
+                    }
+                    _ => continue,
+                };
+                let a = guarded(|| generic.calculate());
+                let b = guarded(|| own.calculate());
+                match (a, b) {
+                    (Ok(a), Ok(b)) if dbg_perf(&a) == dbg_perf(&b) => {}
+                    (a, b) => out.push(json!({"scenario_index": 0, "aspect": "score", "what": "generic_vs_mode_specific_score_setters", "mode": mode, "entry": format!("variant {variant} lazer {lazer}"), "calls": [],
+                        "expected": format!("{b:?}").chars().take(500).collect::<String>(), "observed": format!("{a:?}").chars().take(500).collect::<String>()})),
+                }
+            }
+        }
+    }
+}
+
 /// `builders-replay <scenarios.ndjson> <out.json>`
 pub fn main(args: &[String]) -> i32 {
     silence_panics();
@@ -529,6 +579,7 @@ pub fn main(args: &[String]) -> i32 {
     let mut checks = 0;
     let mut mism: Vec<Value> = Vec::new();
     let mut samples: Vec<Value> = Vec::new();
+    generic_vs_mode_builders(&maps, &mut mism, &mut checks);
     loop {
         let chunk: Vec<Scenario> = lines.by_ref().take(100_000).map(|l| serde_json::from_str(&l.expect("readable line")).expect("scenario shape")).collect();
         if chunk.is_empty() {
